@@ -93,7 +93,7 @@ def oracle(ctx, seeds=None):
         for i in range(N):
             g = float(rng.choice([9.81, 1.0, 2.0]))
             L, R = gens.sw_pair(rng, g, i % 7)
-            m = impl.shallowwater.shallowwater1d(g=g)
+            m = impl.pool('sw', g=g)
             def nf(l, r):
                 return flat(m.numflux(name, [np.array([l[0]]), np.array([l[1]])], [np.array([r[0]]), np.array([r[1]])]))
             ok, out = impl.guarded(lambda: (nf(L, L), nf(L, R), nf((R[0], -R[1]), (L[0], -L[1]))))
@@ -118,7 +118,7 @@ def oracle(ctx, seeds=None):
         for i in range(N):
             g = gens.gamma(rng)
             L, R = gens.euler_pair(rng, g, i % 8)
-            m = impl.euler.euler1d(gamma=g)
+            m = impl.pool('euler1d', gamma=g)
             def nf(l, r):
                 return flat(m.numflux(name, [np.array([x]) for x in l], [np.array([x]) for x in r]))
             ok, out = impl.guarded(lambda: (nf(L, L), nf(L, R), nf((R[0], -R[1], R[2]), (L[0], -L[1], L[2]))))
@@ -153,7 +153,7 @@ def oracle(ctx, seeds=None):
             L, R = gens.euler_pair(rng, g, i % 8)
             nrm = [(1.0, 0.0), (0.0, 1.0)][i % 2]
             tL, tR = [float(x) for x in rng.normal(size=2) * (abs(L[1]) + abs(R[1]) + 1e-3)]
-            m = impl.euler.euler2d(gamma=g)
+            m = impl.pool('euler2d', gamma=g)
             def st(W, t):
                 v = (W[1], t) if nrm[0] == 1.0 else (t, W[1])
                 return [np.array([W[0]]), np.array([[v[0]], [v[1]]]), np.array([W[2]])]
